@@ -268,7 +268,9 @@ class Setup:
 
     def end_state(self):
         import django_components.cache as djc_cache
-        from django_components.component_media import media_cache
+        import django_components.component_media as _cm
+
+        media_cache = getattr(_cm, "media_cache", None) or {}   # observation only; absent after a refactoring -> not observed
 
         st = {"registries": world.registries_nonempty()}
         lru = djc_cache.template_cache
